@@ -65,12 +65,14 @@ func init() {
 		builtinModels["(*sync.Mutex)."+m] = func(fc *FnCtx, c *ssa.CallCommon, args []Val, rt types.Type) (*Val, error) {
 			return modelLock(fc, "sync.Mutex", m, args)
 		}
+		builtinMods["(*sync.Mutex)."+m] = []string{"*"}
 	}
 	for _, m := range []string{"Lock", "Unlock", "RLock", "RUnlock"} {
 		m := m
 		builtinModels["(*sync.RWMutex)."+m] = func(fc *FnCtx, c *ssa.CallCommon, args []Val, rt types.Type) (*Val, error) {
 			return modelLock(fc, "sync.RWMutex", m, args)
 		}
+		builtinMods["(*sync.RWMutex)."+m] = []string{"*"}
 	}
 	builtinModels["(*github.com/tokenized/pkg/wire.MsgTx).TxHash"] = func(fc *FnCtx, c *ssa.CallCommon, args []Val, rt types.Type) (*Val, error) {
 		fc.vc.trust("wire.MsgTx.TxHash is an uninterpreted function of the transaction object (its content is not modelled)")
